@@ -96,6 +96,10 @@ func main() {
 		runSurvey(w, s) // development aid: prints what a rule would cover; no verdict
 		return
 	}
+	if *dump == "PARAMS" {
+		dumpParams(w) // writes frozen_params.go in the current directory (run on the pinned tree only)
+		return
+	}
 	if *dump != "" {
 		fn := w.Fn(*dump)
 		if fn == nil {
